@@ -338,6 +338,16 @@ pub fn packet(r: &mut Rng, cfg: &PacketCfg) -> (MsgSpec, Option<OptSpec>) {
             flags |= bit;
         }
     }
+    // opcode and response code, set through the packet API (an extended RCODE, > 15, is carried
+    // in full only when the packet has an OPT record; without one only its low bits are written)
+    if r.chance(1, 5) {
+        flags |= (*r.pick(&[1u16, 2, 4, 5, 15])) << 11;
+    }
+    if r.chance(1, 5) {
+        flags |= 1 + r.below(10) as u16;
+    } else if r.chance(1, 6) {
+        m.ext_rcode = *r.pick(&[16u16, 17, 23, 0x0FFF]);
+    }
     m.flags = flags;
     for _ in 0..r.usize_below(cfg.max_q + 1) {
         m.questions.push(question(r, &pool));
